@@ -1,6 +1,7 @@
 import Driver.Util
 import NixModel.Pure.Frame
 import NixModel.Pure.FrameRec
+import NixModel.Pure.FrameBytes
 open Lean Nix Nix.Frame
 
 namespace Driver.C16
@@ -80,22 +81,33 @@ def cellOutside (nonAtomic : Bool) (t : ColType) (v : Val) : Bool :=
 def rowsOutside (nonAtomic : Bool) (ts : List ColType) (rows : List (List Val)) : Bool :=
   rows.any (fun r => (ts.zip r).any (fun p => cellOutside nonAtomic p.1 p.2))
 
-def created (r : Except Err Frame) : Option Frame × Json :=
-  match r with
-  | .ok f => (some f, ok (dump f))
+/-- The driver runs the **byte-level** machine of `Pure/FrameBytes.lean` (text cells stored as UTF-8 bytes, reads =
+    raw selection + `_convert_string_cols`); `C16_storage_simulates` / `C16_storage_reads` prove it equal to the
+    abstract model the property theorems are stated on. -/
+abbrev St := Option SFrame
+
+/-- what `frame[:]` plus the schema reports show: the converted table -/
+def sDump (s : SFrame) : Json :=
+  match sReadAll s with
+  | .ok rows => ok (dump ⟨s.cols, rows, s.units⟩)
+  | .error e => err e
+
+def created (r : Except Err Frame) : St × Json :=
+  match sCreated r with
+  | .ok s => (some s, sDump s)
   | .error e => (none, err e)
 
-def wrote (p : Frame × Option Err) : Option Frame × Json :=
+def wrote (p : SFrame × Option Err) : St × Json :=
   match p.2 with
   | none => (some p.1, ok Json.null)
   | some e => (some p.1, err e)
 
-def readOut {α : Type} (s : Option Frame) (r : Except Err α) (j : α → Json) : Option Frame × Json :=
+def readOut {α : Type} (s : St) (r : Except Err α) (j : α → Json) : St × Json :=
   match r with
   | .ok v => (s, ok (j v))
   | .error e => (s, err e)
 
-def outside : Option Frame × Json := (none, bad "C16: input outside the modelled domain")
+def outside : St × Json := (none, bad "C16: input outside the modelled domain")
 
 /-- the presentation object of a line whose rows are handed over as a NumPy structured array:
     `{"rec": [[field name, field type], …], "mem": [memory rank of each field], "pad": …, "how": …}`;
@@ -115,7 +127,7 @@ def recOf? (fm : Json) (dflt : Option (List (String × ColType))) (rows : List R
 
 def isForm (j : Json) : Bool := match j with | .obj _ => true | _ => false
 
-def handle (s : Option Frame) (j : Json) : Option Frame × Json :=
+def handle (s : St) (j : Json) : St × Json :=
   match (jArr j).toList with
   | [Json.str "create_dict", cs, d] =>
     match cols? cs, optOf? rows? d with
@@ -171,7 +183,7 @@ def handle (s : Option Frame) (j : Json) : Option Frame × Json :=
     | none => (s, bad "C16: no frame")
     | some f =>
       match op, args with
-      | Json.str "dump", [] => (s, ok (dump f))
+      | Json.str "dump", [] => (s, sDump f)
       | Json.str "reopen", [] => (s, ok Json.null)
       -- another live DataFrame object of the same frame: objects carry no state (`C16_handles_stateless`)
       | Json.str "handle", [k] => match jInt? k with
@@ -179,30 +191,30 @@ def handle (s : Option Frame) (j : Json) : Option Frame × Json :=
         | none => (s, bad "C16: handle")
       | Json.str "append_rows", [d] =>
         match rows? d with
-        | some d => if rowsOutside false f.types d then outside else wrote (step f (.appendRows d))
+        | some d => if rowsOutside false f.types d then outside else wrote (sstep f (.appendRows d))
         | none => (s, bad "C16: append_rows")
       | Json.str "append_rows", [d, fm] =>
         match rows? d with
         | some d =>
           match recOf? fm none d with
-          | some r => if rowsOutside false f.types d then outside else wrote (appendRowsRec f r)
+          | some r => if rowsOutside false f.types d then outside else wrote (sstep f (OpR.toOp (.appendRowsRec r)))
           | none => (s, bad "C16: append_rows form")
         | none => (s, bad "C16: append_rows")
       | Json.str "append_column", [c, Json.str n, t] =>
         match row? c, optOf? ty? t with
         | some c, some t =>
           let tt := match t, c with | some t, _ => t | none, v :: _ => typeOfVal v | none, [] => .i64
-          if c.any (cellOutside false tt) then outside else wrote (step f (.appendColumn c n t))
+          if c.any (cellOutside false tt) then outside else wrote (sstep f (.appendColumn c n t))
         | _, _ => (s, bad "C16: append_column")
       | Json.str "write_rows", [d, ix] =>
         match rows? d, ints? ix with
-        | some d, some ix => if rowsOutside false f.types d then outside else wrote (step f (.writeRows d ix))
+        | some d, some ix => if rowsOutside false f.types d then outside else wrote (sstep f (.writeRows d ix))
         | _, _ => (s, bad "C16: write_rows")
       | Json.str "write_rows", [d, ix, fm] =>
         match rows? d, ints? ix with
         | some d, some ix =>
           match recOf? fm none d with
-          | some r => if rowsOutside false f.types d then outside else wrote (writeRowsRec f r ix)
+          | some r => if rowsOutside false f.types d then outside else wrote (sstep f (OpR.toOp (.writeRowsRec r ix)))
           | none => (s, bad "C16: write_rows form")
         | _, _ => (s, bad "C16: write_rows")
       | Json.str "write_row_flat", [d, ix, fm] =>
@@ -210,56 +222,56 @@ def handle (s : Option Frame) (j : Json) : Option Frame × Json :=
         | some (Val.str _ :: _), _ => outside
         | some d, some ix =>
           if !isForm fm then (s, bad "C16: write_row_flat form")
-          else if rowsOutside false f.types [d] then outside else wrote (writeRowVoid f d ix)
+          else if rowsOutside false f.types [d] then outside else wrote (sstep f (OpR.toOp (.writeRowVoid d ix)))
         | _, _ => (s, bad "C16: write_row_flat")
       | Json.str "write_row_flat", [d, ix] =>
         match row? d, ints? ix with
         | some (Val.str _ :: _), _ => outside
-        | some d, some ix => if rowsOutside false f.types [d] then outside else wrote (step f (.writeRowFlat d ix))
+        | some d, some ix => if rowsOutside false f.types [d] then outside else wrote (sstep f (.writeRowFlat d ix))
         | _, _ => (s, bad "C16: write_row_flat")
       | Json.str "write_column", [c, ix, n] =>
         match row? c, optOf? jInt? ix, optOf? str? n with
-        | some c, some ix, some n => wrote (step f (.writeColumn c ix n))
+        | some c, some ix, some n => wrote (sstep f (.writeColumn c ix n))
         | _, _, _ => (s, bad "C16: write_column")
       | Json.str "write_cell_pos", [c, p] =>
         match val? c, ints? p with
-        | some c, some p => wrote (step f (.writeCellPos c p))
+        | some c, some p => wrote (sstep f (.writeCellPos c p))
         | _, _ => (s, bad "C16: write_cell_pos")
       | Json.str "write_cell_name", [c, Json.str n, r] =>
         match val? c, jInt? r with
-        | some c, some r => wrote (step f (.writeCellName c n r))
+        | some c, some r => wrote (sstep f (.writeCellName c n r))
         | _, _ => (s, bad "C16: write_cell_name")
       | Json.str "set_units", [us] =>
         match listOf? (optOf? str?) us with
-        | some us => wrote (step f (.setUnits us))
+        | some us => wrote (sstep f (.setUnits us))
         | none => (s, bad "C16: set_units")
       | Json.str "read_row", [i] =>
         match jInt? i with
-        | some i => readOut s (readRow f i) rowJ
+        | some i => readOut s (sReadRow f i) rowJ
         | none => (s, bad "C16: read_row")
       | Json.str "read_rows", [ix] =>
         match ints? ix with
-        | some ix => readOut s (readRows f ix) rowsJ
+        | some ix => readOut s (sReadRows f ix) rowsJ
         | none => (s, bad "C16: read_rows")
       | Json.str "read_columns_idx", [ix, lo, hi] =>
         match ints? ix, optOf? jInt? lo, optOf? jInt? hi with
-        | some ix, some lo, some hi => readOut s (readColumns f (colsByIndex f.cols.length ix) lo hi) rowsJ
+        | some ix, some lo, some hi => readOut s (sReadColumns f (colsByIndex f.cols.length ix) lo hi) rowsJ
         | _, _, _ => (s, bad "C16: read_columns_idx")
       | Json.str "read_columns_name", [ns, lo, hi] =>
         match listOf? str? ns, optOf? jInt? lo, optOf? jInt? hi with
-        | some ns, some lo, some hi => readOut s (readColumns f (colsByName f.cols (if ns.length = 1 then .valueError else .keyError) ns) lo hi) rowsJ
+        | some ns, some lo, some hi => readOut s (sReadColumns f (colsByName f.cols (if ns.length = 1 then .valueError else .keyError) ns) lo hi) rowsJ
         | _, _, _ => (s, bad "C16: read_columns_name")
       | Json.str "read_cell_pos", [p] =>
         match ints? p with
-        | some p => readOut s (readCellPos f p) valJ
+        | some p => readOut s (sReadCellPos f p) valJ
         | none => (s, bad "C16: read_cell_pos")
       | Json.str "read_cell_name", [Json.str n, r] =>
         match jInt? r with
-        | some r => readOut s (readCellName f n r) valJ
+        | some r => readOut s (sReadCellName f n r) valJ
         | none => (s, bad "C16: read_cell_name")
       | _, _ => (s, bad "C16: unknown op")
   | _ => (s, bad "C16: not an op")
 
-def main : IO Unit := loop (none : Option Frame) handle
+def main : IO Unit := loop (none : St) handle
 
 end Driver.C16
